@@ -1,6 +1,7 @@
 // C02: runs every CASE of MC_PersistentCohomology on the real Persistent_cohomology engine (Simplex_tree under several
 // option sets, Hasse_complex built from it; Field_Zp and Multi_field) and compares every read interface with the
 // expectation derived by TLC.  usage: pc_cases cases.ndjson out.ndjson [shard nshards]
+#include <sstream>
 #include "common.hpp"
 
 #include <gudhi/Simplex_tree.h>
@@ -55,30 +56,59 @@ void check_field(Complex& cpx, const std::string& cfg, long ci, const bj::object
   bj::value exp_diag = canon(ex.at("diag_set"), true);
   bj::value got_diag = canon(bj::value(diagram_of(cpx, pcoh, 0)), true);
   if (ser(exp_diag) != ser(got_diag)) dev.report(cfg, ci, params, "diagram", exp_diag, got_diag);
-  // betti numbers
-  bj::array bet;
-  for (int x : pcoh.betti_numbers()) bet.push_back(x);
-  if (ser(bj::value(bet)) != ser(ex.at("betti"))) dev.report(cfg, ci, params, "betti_numbers", ex.at("betti"), bet);
-  for (std::size_t k = 0; k < bet.size(); ++k)
-    if (pcoh.betti_number(static_cast<int>(k)) != bet[k].as_int64()) dev.report(cfg, ci, params, "betti_number(k)", bet[k], pcoh.betti_number(static_cast<int>(k)));
-  for (auto& pv : ex.at("pbetti_set").as_array()) {
-    const bj::object& pb = pv.as_object();
-    double from = pb.at("from").to_number<double>(), to = pb.at("to").to_number<double>();
-    bj::array got;
-    for (int x : pcoh.persistent_betti_numbers(from, to)) got.push_back(x);
-    if (ser(bj::value(got)) != ser(pb.at("v"))) dev.report(cfg, ci, params, "persistent_betti_numbers(" + std::to_string(from) + "," + std::to_string(to) + ")", pb.at("v"), got);
-    for (std::size_t k = 0; k < got.size(); ++k)
-      if (pcoh.persistent_betti_number(static_cast<int>(k), from, to) != got[k].as_int64()) dev.report(cfg, ci, params, "persistent_betti_number(k,from,to)", got[k], -1);
+  // the derived queries, asked right after the computation and again after the diagram has been printed (output_diagram
+  // sorts the stored pairs in place: the answers may not depend on the order of the queries)
+  auto queries = [&](const std::string& phase) {
+    // betti numbers
+    bj::array bet;
+    for (int x : pcoh.betti_numbers()) bet.push_back(x);
+    if (ser(bj::value(bet)) != ser(ex.at("betti"))) dev.report(cfg, ci, params, phase + "betti_numbers", ex.at("betti"), bet);
+    for (std::size_t k = 0; k < bet.size(); ++k)
+      if (pcoh.betti_number(static_cast<int>(k)) != bet[k].as_int64()) dev.report(cfg, ci, params, phase + "betti_number(k)", bet[k], pcoh.betti_number(static_cast<int>(k)));
+    for (auto& pv : ex.at("pbetti_set").as_array()) {
+      const bj::object& pb = pv.as_object();
+      double from = pb.at("from").to_number<double>(), to = pb.at("to").to_number<double>();
+      bj::array got;
+      for (int x : pcoh.persistent_betti_numbers(from, to)) got.push_back(x);
+      if (ser(bj::value(got)) != ser(pb.at("v"))) dev.report(cfg, ci, params, phase + "persistent_betti_numbers(" + std::to_string(from) + "," + std::to_string(to) + ")", pb.at("v"), got);
+      for (std::size_t k = 0; k < got.size(); ++k)
+        if (pcoh.persistent_betti_number(static_cast<int>(k), from, to) != got[k].as_int64()) dev.report(cfg, ci, params, phase + "persistent_betti_number(k,from,to)", got[k], -1);
+    }
+    // intervals_in_dimension agrees with the pairs
+    std::map<std::tuple<int, std::int64_t, std::int64_t>, int> bag;
+    int maxd = 0;
+    for (auto& e : got_diag.as_array()) maxd = std::max<int>(maxd, static_cast<int>(e.as_object().at("dim").as_int64()));
+    bj::array viaint;
+    for (int d = 0; d <= maxd + 1; ++d)
+      for (auto& iv : pcoh.intervals_in_dimension(d)) bag[{d, fv(iv.first).as_int64(), fv(iv.second).as_int64()}]++;
+    for (auto& e : bag) viaint.push_back(bj::object{{"dim", std::get<0>(e.first)}, {"b", std::get<1>(e.first)}, {"d", std::get<2>(e.first)}, {"n", e.second}});
+    if (ser(canon(bj::value(viaint), true)) != ser(got_diag)) dev.report(cfg, ci, params, phase + "intervals_in_dimension", got_diag, viaint);
+  };
+  queries("");
+  bool inf_birth = false;
+  for (auto& pr : pcoh.get_persistent_pairs()) if (std::isinf(cpx.filtration(std::get<0>(pr)))) inf_birth = true;
+  if (!inf_birth) {   // (the length comparator of output_diagram is not a strict weak order on inf - inf)
+    std::ostringstream os;
+    pcoh.output_diagram(os);
+    std::map<std::tuple<int, std::int64_t, std::int64_t>, int> printed;
+    std::istringstream is(os.str());
+    std::string line;
+    bool parse_ok = true;
+    while (std::getline(is, line)) {
+      std::istringstream ls(line);
+      std::string c, b, d;
+      int dim;
+      if (!(ls >> c >> dim >> b >> d)) { parse_ok = false; continue; }
+      if (c != std::to_string(p)) parse_ok = false;
+      printed[{dim, fv(std::stod(b)).as_int64(), fv(std::stod(d)).as_int64()}]++;
+    }
+    bj::array pa;
+    for (auto& e : printed) pa.push_back(bj::object{{"dim", std::get<0>(e.first)}, {"b", std::get<1>(e.first)}, {"d", std::get<2>(e.first)}, {"n", e.second}});
+    if (!parse_ok || ser(canon(bj::value(pa), true)) != ser(got_diag)) dev.report(cfg, ci, params, "output_diagram", got_diag, pa);
+    bj::value again = canon(bj::value(diagram_of(cpx, pcoh, 0)), true);
+    if (ser(again) != ser(got_diag)) dev.report(cfg, ci, params, "get_persistent_pairs after output_diagram", got_diag, again);
+    queries("after output_diagram: ");
   }
-  // intervals_in_dimension agrees with the pairs
-  std::map<std::tuple<int, std::int64_t, std::int64_t>, int> bag;
-  int maxd = 0;
-  for (auto& e : got_diag.as_array()) maxd = std::max<int>(maxd, static_cast<int>(e.as_object().at("dim").as_int64()));
-  bj::array viaint;
-  for (int d = 0; d <= maxd + 1; ++d)
-    for (auto& iv : pcoh.intervals_in_dimension(d)) bag[{d, fv(iv.first).as_int64(), fv(iv.second).as_int64()}]++;
-  for (auto& e : bag) viaint.push_back(bj::object{{"dim", std::get<0>(e.first)}, {"b", std::get<1>(e.first)}, {"d", std::get<2>(e.first)}, {"n", e.second}});
-  if (ser(canon(bj::value(viaint), true)) != ser(got_diag)) dev.report(cfg, ci, params, "intervals_in_dimension", got_diag, viaint);
 }
 
 template <class Complex>
